@@ -4,7 +4,7 @@
    a uint32_t item is shifted at unsigned int and may wrap, the narrower ones are promoted to int). *)
 From Coq Require Import List ZArith NArith Bool String Lia ZifyBool.
 From FFSM2 Require Import Model.Cxx Model.Bits Model.BitArray Model.BitStream Generated.LeafCode
-                          Proofs.BitsProofs Proofs.BitArrayProofs Proofs.BitStreamProofs Proofs.LeafTactics Proofs.LeafConsts Proofs.LeafCodeProofs.
+                          Proofs.BitsProofs Proofs.BitArrayProofs Proofs.BitStreamProofs Proofs.LeafTactics Proofs.LeafCodeStream.
 Import ListNotations.
 Local Open Scope string_scope.
 Local Open Scope Z_scope.
@@ -202,7 +202,7 @@ Proof.
   { apply N.lt_le_trans with (2 ^ (cw + icur))%N; [apply Nshiftl_bound; [exact Hchunk|lia]|].
     change 65536%N with (2 ^ 16)%N. apply N.pow_le_mono_r; lia. }
   unfold chunk, cw in *.
-  sym_exec. norm_state. reflexivity.
+  sym_exec. norm_state. close_min.
 Qed.
 
 Lemma read12_loop : forall k g cs bw item icur w x1 x2 x3 x4 x5 x6 x7 c buf,
@@ -301,7 +301,7 @@ Proof.
   { apply N.lt_le_trans with (2 ^ (cw + icur))%N; [apply Nshiftl_bound; [exact Hchunk|lia]|].
     change 4294967296%N with (2 ^ 32)%N. apply N.pow_le_mono_r; lia. }
   unfold chunk, cw in *.
-  sym_exec. norm_state. reflexivity.
+  sym_exec. norm_state. close_min.
 Qed.
 
 Lemma read20_loop : forall k g cs bw item icur w x1 x2 x3 x4 x5 x6 x7 c buf,
